@@ -36,11 +36,14 @@ def run(ctx):
         R = ctx.rng.randint(2, 9); Ns = ctx.rng.randint(1, 12)
         pr = ctx.rng.choice([0.1, 0.5, 0.9])
         mats.append(np.array([[1 if ctx.rng.random() < pr else 0 for _ in range(Ns)] for _ in range(R)]))
+    dts = [np.int64, np.int8, np.uint8, np.uint16, np.uint64, bool, float, np.int32]
     for m in mats:
         R, Ns = m.shape
+        m = m.astype(ctx.rng.choice(dts)) if ctx.rng.random() < 0.5 else m
+        ctx.count("dtype-" + m.dtype.name)
         snap = m.copy()
         r = guarded(irr.compute_ts, m)
-        ml = m.tolist()
+        ml = m.astype(int).tolist()
         want = pairs_oracle(ml)
         nontriv = any(len(set(m[:, i])) > 1 for i in range(Ns))
         ctx.case(tuple(map(tuple, ml)), nontriv, {"ratings": ml} if R * Ns <= 12 else None); ctx.count(f"R={R}")
@@ -51,15 +54,20 @@ def run(ctx):
         if not (0 <= v <= 1) or ((v == 1) != all((m[a] == m[0]).all() for a in range(R))):
             det.update({"issue": "range / equals-1-iff-all-agree fails", "returned": float(v)}); ctx.violation("oracle", det, site="compute_ts"); continue
         pr_ = list(range(R)); ctx.rng.shuffle(pr_); pi = list(range(Ns)); ctx.rng.shuffle(pi)
-        for name, m2 in (("raters reordered", m[pr_]), ("items reordered", m[:, pi]), ("labels exchanged", 1 - m)):
+        for name, m2 in (("raters reordered", m[pr_]), ("items reordered", m[:, pi]), ("labels exchanged", (1 - m.astype(np.int64)).astype(m.dtype))):
             r2 = guarded(irr.compute_ts, m2)
             if r2[0] != "ok" or abs(r2[1] - v) > 1e-12:
                 det.update({"issue": "not invariant: " + name, "before": float(v), "after": r2[1:]}); ctx.violation("oracle", det, site="compute_ts")
         ops.append("computets|" + rows(ml, ints)); meta.append(("ts", det, float(v)))
     # ---- simulate_ts_dist with recorded draws
-    for _ in range(ctx.n(120, 1500)):
-        R = ctx.rng.randint(2, 5); Ns = ctx.rng.randint(2, 6); reps = ctx.rng.randint(1, 12)
-        m = np.array([[ctx.rng.randint(0, 1) for _ in range(Ns)] for _ in range(R)])
+    for _ in range(ctx.n(250, 3000)):
+        R = ctx.rng.randint(2, 6); Ns = ctx.rng.randint(2, 9); reps = ctx.rng.randint(1, 20)
+        if ctx.rng.random() < 0.35:       # few distinct values: many permutations tie with the reference
+            m = np.array([[1] * Ns for _ in range(R)])
+            for _k in range(ctx.rng.randint(0, 3)):
+                m[ctx.rng.randrange(R), ctx.rng.randrange(Ns)] = 0
+        else:
+            m = np.array([[ctx.rng.randint(0, 1) for _ in range(Ns)] for _ in range(R)])
         obsF = ctx.rng.choice([None, None, Fr(1, 2), pairs_oracle(m.tolist()), Fr(0), Fr(1)])
         obs = None if obsF is None else float(obsF)     # the double image of the exact reference value
         plus1 = ctx.rng.random() < 0.5; keep = ctx.rng.random() < 0.5
@@ -71,6 +79,12 @@ def run(ctx):
         if r[0] != "ok" or not np.array_equal(m, snap):
             det.update({"issue": "call failed or ratings modified", "returned": r[1:]}); ctx.violation("oracle", det, site="simulate_ts_dist"); continue
         res = r[1]
+        # the other keep_dist mode under the same seed must count the same
+        r_other = guarded(irr.simulate_ts_dist, m, obs, reps, not keep, RecSHA256(g.baseseed), plus1)
+        if r_other[0] != "ok" or int(r_other[1]["geq"]) != int(res["geq"]) or r_other[1]["pvalue"] != res["pvalue"]:
+            det.update({"issue": "geq / pvalue differ between keep_dist=True and keep_dist=False under the same seed",
+                        "this_mode": [int(res["geq"]), float(res["pvalue"])], "other_mode": str(r_other[1:])[:200] if r_other[0] != "ok" else [int(r_other[1]["geq"]), float(r_other[1]["pvalue"])]})
+            ctx.violation("oracle", det, site="simulate_ts_dist"); continue
         ref = obsF if obsF is not None else pairs_oracle(m.tolist())
         c = 1 if plus1 else 0
         why = None
@@ -91,6 +105,7 @@ def run(ctx):
             det.update({"issue": "unexpected use of the generator: " + str(ex)}); ctx.violation("correspondence", det, site="simulate_ts_dist", no_input=True); continue
         ops.append(f"tsdist|{int(plus1)}|{'-' if obsF is None else rat(obsF)}|{rows(m.tolist(), ints)}|{rows3(draws)}")
         meta.append(("tsdist", det, res))
+    hazard_block(ctx)
     # ---- simulate_npc_dist
     for _ in range(ctx.n(150, 2000)):
         B = ctx.rng.randint(2, 25); S = ctx.rng.randint(2, 5)
@@ -149,6 +164,38 @@ def run(ctx):
             agree = False
             ctx.violation("correspondence", {"op": kind, "model": o[:300], "impl": str(got)[:300], "input": det}, site=det["call"], no_input=True)
     ctx.block("irr-model-vs-impl", agree, len(ops))
+
+
+def hazard_block(ctx):
+    from permute import irr
+    # ---- reference values whose double image does not survive multiplication by the denominator: (c/d)*d != c.
+    #      A comparison carried out on un-normalised counts (or any rescaled form) loses every tie there.
+    hazards = []
+    for R in range(2, 7):
+        for Ns in range(2, 13):
+            d = Ns * R * (R - 1)
+            t = [y * (y - 1) + (R - y) * (R - y - 1) for y in range(R + 1)]
+            reach = {0: []}
+            for _i in range(Ns):
+                reach = {c + ty: ys + [y] for c, ys in reach.items() for y, ty in enumerate(t)}
+            for c, ys in reach.items():
+                if (c / d) * d != c or (c / d) * Ns * R * (R - 1) != c:
+                    hazards.append((R, Ns, c, ys))
+    ctx.rng.shuffle(hazards)
+    for (R, Ns, c, ys) in hazards[:ctx.n(30, 400)]:
+        m = np.array([[1 if r_ < y else 0 for y in ys] for r_ in range(R)])
+        seed = ctx.rng.randint(0, 10**9); reps = 40
+        a = guarded(irr.simulate_ts_dist, m, None, reps, True, seed, False)
+        b = guarded(irr.simulate_ts_dist, m, None, reps, False, seed, False)
+        ctx.case(("hazard", R, Ns, c), True); ctx.count("float-roundtrip-hazard-shapes")
+        if a[0] != "ok" or b[0] != "ok":
+            ctx.violation("oracle", {"call": "simulate_ts_dist", "ratings": m.tolist(), "issue": "call failed", "returned": str([a[1:], b[1:]])[:200]}, site="simulate_ts_dist"); continue
+        want = int(np.sum(np.array(a[1]["dist"]) >= a[1]["obs_ts"]))
+        exact = sum(1 for v in a[1]["dist"] if Fr(float(v)) >= Fr(c, Ns * R * (R - 1)) or abs(float(v) - c / (Ns * R * (R - 1))) < 1e-12)
+        if int(a[1]["geq"]) != want or int(b[1]["geq"]) != want or want != exact:
+            ctx.violation("oracle", {"call": "simulate_ts_dist", "ratings": m.tolist(), "num_perm": reps, "seed": seed, "concordant_count": c, "denominator": Ns * R * (R - 1),
+                                     "issue": "geq is not the number of simulated values >= the reference (ties with the observed value lost)",
+                                     "geq_keep_dist_true": int(a[1]["geq"]), "geq_keep_dist_false": int(b[1]["geq"]), "count_from_returned_dist": want, "exact_count": exact}, site="simulate_ts_dist")
 
 
 def _ties(det, cstat):
